@@ -33,7 +33,7 @@ func main() {
 	run.Rule("unit = one generated hostile history (as C01) with a storage fault injected into ~8% of requests at open-for-write / read-latest / write, plus scripted units for the rare refusal class 'non-empty proof at size zero'; every refusal is classified by the reference model into refusal class x {nothing stored, stored}; further units end the caller context while an acceptable update is inside a storage call (or before it starts) and compare the state once everything the call started has finished. evaluations = update requests; nontrivial = distinct (class, stored?, old-size kind, checkpoint kind, proof kind, store) tuples among refusals")
 	run.Assume("the snapshot (GetLogs + GetCheckpoint of every configured and three unconfigured IDs + raw table rows on SQLite) is the observable state", "an injected write fault does not perform the write (a store that writes and then reports failure is outside the witness's control)")
 	for _, c := range cells {
-		run.Floor("cell:"+c, 200)
+		run.Floor("cell:"+c, 120)
 	}
 	run.Floor("store_mem", 1)
 	run.Floor("store_sqlmem", 1)
